@@ -405,3 +405,42 @@ def sync_model_stream(run, n, label='sync-model'):
         run.violation(dict(kind='correspondence-broken', correspondence=f'L4/{label}', disagreeing_cases=len(bad), **bad[0],
                            note='the model of the destination half of a sync (syncDest, the subject of C01_mirror_fs) and the CLI end in different destination trees'), no_input=True)
     return bad
+
+
+# ------------------------------------------------------------------ CLI-only fallback (the in-process harness does not build)
+
+def l4_mirror_fallback(run):
+    """generated tree pairs through the CLI in the 4 placements with the independent mirror comparison, and the sync-model stream"""
+    from .props import FALLBACKS  # noqa
+    rng = run.rng
+    ok, out = C.build_cli()
+    if not ok:
+        run.violation(dict(kind='cli-does-not-build', output_tail=out[-1500:]), no_input=True)
+        return
+    sb = l4.Sandbox(); sb.place_remote('same')
+    try:
+        for i in range(40):
+            c = M.gen_case(rng, sb, i)
+            before = M.snap_all(c)
+            r = M.run_case(sb, c)
+            after = M.snap_all(c)
+            run.count(f'fallback-l4:{c.placement}:rc={r["rc"]}'); run.cov['traces_validated_against_impl'] += 1
+            run.case(('fallback-l4', i), r['rc'] == 0, sample=None)
+            diffs = M.mirror_diffs(before['src'], before['dst'], after['dst'], c.filters) if r['rc'] == 0 else ([] if r['rc'] == 12 and not r['timeout'] else [f'exit status {r["rc"]}'])
+            if before['src'] != after['src']: diffs.append('the source changed')
+            if before['outside'] != after['outside']: diffs.append('something outside the two roots changed')
+            if diffs:
+                run.violation(dict(kind='oracle-failed-on-implementation', oracle='exit 0 => mirror; source and outside untouched (CLI-only fallback search)', layer='L4', **M.describe(c), rc=r['rc'], differences=diffs[:6], stderr=r['err'][-400:]))
+                break
+            shutil.rmtree(c.base, ignore_errors=True)
+    finally:
+        subprocess.run(['chmod', '-R', 'u+rwx', sb.dir], capture_output=True); sb.close()
+    sync_model_stream(run, 20)
+
+
+def _register_fallbacks():
+    from .props import FALLBACKS
+    FALLBACKS.setdefault('*', []).append(l4_mirror_fallback)
+
+
+_register_fallbacks()
